@@ -118,8 +118,9 @@ package handlers
 //@   ensures secCount == old(secCount) + 1 && lastSecErr == nil && !lastSecAllowed && lastSecRetryAfter > 0 ==> ghost(w).status == 429
 //@   ensures secCount == old(secCount) + 1 && lastSecErr == nil && !lastSecAllowed && lastSecRetryAfter <= 0 && hasPrefix(lastSecReason, "Request body too large") ==> ghost(w).status == 413
 //@   ensures served == old(served) || served == old(served) + 1
-// a body whose length is not declared (chunked) must be capped before the request is served
-//@   at call ServeHTTP 1 assert r.Body == nil || ghost(r.Body).limited
+// with a positive configured limit, the body itself (whose length may be undeclared: chunked) is capped before the
+// request is served
+//@   at call ServeHTTP 1 assert s.maxBodySize > 0 ==> r.Body == nil || ghost(r.Body).limited
 
 // ---- C14 / C05: the translation handler. Logging and bookkeeping helpers (trusted: they write log lines, request
 // statistics and metrics only; none of them calls the proxy engine or writes to the client).
